@@ -423,6 +423,8 @@ pub fn main(o: &Opts) {
         return;
     }
     let gopts = GenOpts::from_opts(o, "filter,agg,join,sort_limit,agg,subquery,filter,sort_limit,join,distinct,agg,setop,cte");
+    // plain single-table / derived-table selects for the `tail:*` stratum: primary stratum `filter` only (no join, aggregate, DISTINCT, ORDER BY of its own)
+    let tail_opts = { let mut t = GenOpts::from_opts(o, "filter"); t.strata = vec!["filter".into()]; for x in ["join", "agg", "distinct", "sort_limit", "setop", "cte", "subquery", "gsets", "values"] { t.allow.remove(x); } t };
     let mut copts = CatOpts::from_opts(o);
     // the reference semantics is a nested loop: keep tables small (default classes tiny / small <= 60 rows) and get many
     // splits from small row groups instead
@@ -439,10 +441,29 @@ pub fn main(o: &Opts) {
         }
         attempts += 1;
         let mut qr = r.fork();
-        let mut g = Gen::new(&mut qr, &cat, &gopts).generate(n);
+        // stratum `tail:*` (30 % of the cases): a plain single-block SELECT whose trailing clauses are OFFSET only (4 in 7 of
+        // them), LIMIT only, LIMIT + OFFSET without ORDER BY, or ORDER BY + OFFSET without LIMIT — with and without WHERE
+        let tail: Option<u64> = if r.below(100) < 30 { Some(r.below(7)) } else { None };
+        let mut g = Gen::new(&mut qr, &cat, if tail.is_some() { &tail_opts } else { &gopts }).generate(n);
         let mut tags = g.tags.clone();
+        if let Some(kind) = tail {
+            let k = *r.pick(&[1usize, 1, 2, 2, 5, 50]);
+            let lim = *r.pick(&[0usize, 1, 3, 3, 10]);
+            let no_where = r.chance(1, 2);
+            let width = g.q.width();
+            if let Body::Select(sel) = &mut g.q.body { if no_where && !sel.where_.as_ref().map(|w| w.has_subquery()).unwrap_or(false) { sel.where_ = None; tags.push("tail:no_where".into()); } }
+            let keys: Vec<SortKey> = if let Body::Select(sel) = &g.q.body {
+                (0..width.min(2)).map(|i| SortKey { e: Expr::Col { i, sql: sel.proj[i].1.clone() }, desc: r.chance(1, 2), nulls_first: r.chance(1, 2) }).collect()
+            } else { vec![] };
+            match kind {
+                0..=3 => { g.q.order = vec![]; g.q.limit = Some((k, None)); tags.push("tail:offset-only".into()); }
+                4 => { g.q.order = vec![]; g.q.limit = Some((0, Some(lim))); tags.push("tail:limit-only".into()); }
+                5 => { g.q.order = vec![]; g.q.limit = Some((k, Some(lim))); tags.push("tail:limit-offset".into()); }
+                _ => { g.q.order = keys; g.q.limit = Some((k, None)); tags.push("tail:order-offset".into()); }
+            }
+        }
         // special streams
-        let special = r.below(12);
+        let special = if tail.is_some() { 99 } else { r.below(12) };
         if special == 0 && force_empty(&cat, &mut g.q) { tags.push("forced_empty".into()); }
         // neutraliser of finding C09-F7: the same statement with the shadowing alias given back its generated name
         let mut neutral_sql: Option<String> = None;
@@ -454,10 +475,10 @@ pub fn main(o: &Opts) {
         } }
         // two clusters per case: sizes 1..8, the initiator holding a shard or not
         let mut cfgs = vec!["local".to_string()];
-        let n1 = *r.pick(&[1usize, 1, 2, 2, 3, 3, 4, 5, 6, 7, 8]);
+        let n1 = if tail.is_some() { *r.pick(&[2usize, 2, 3, 5, 8]) } else { *r.pick(&[1usize, 1, 2, 2, 3, 3, 4, 5, 6, 7, 8]) };
         let s1 = if r.chance(1, 5) { None } else { Some(r.below(n1 as u64) as usize) };
         cfgs.push(cfg_name(n1, s1));
-        let n2 = *r.pick(&[1usize, 2, 3, 4, 5, 8]);
+        let n2 = if tail.is_some() { *r.pick(&[1usize, 2, 3, 5, 8]) } else { *r.pick(&[1usize, 2, 3, 4, 5, 8]) };
         let s2 = if r.chance(1, 3) { None } else { Some(r.below(n2 as u64) as usize) };
         if cfg_name(n2, s2) != cfgs[1] { cfgs.push(cfg_name(n2, s2)); }
         let mut case = json!({"prop": "C09", "mode": "meta", "sql": g.q.sql(), "plan": g.q.plan(0), "tables": cat.tables_json(), "cat": cat.meta_json(),
